@@ -436,7 +436,7 @@ Proof.
 Qed.
 
 Lemma no_block_alpha : forall M m q, wf M = true -> two_sided M = true -> In q (all_pairs M) ->
-  lec_load M m (lec q) <= nth1 (l_uq M) (lec q) 0 ->
+  lec_load M m (lec q) <= countb (gA q) (matched M m) ->
   nth1 (l_uq M) (lec q) 0 <= countb (gA q) (matched M m) ->
   blocking_b M m q = false.
 Proof.
@@ -446,7 +446,7 @@ Proof.
   assert (Hr0 : rl0 q = r) by (unfold rl0; rewrite Hr; reflexivity).
   assert (Hall : forall a, In a (matched M m) -> lec a =? lec q = true -> g1 q a = true).
   { apply (countb_sub pair (fun a => lec a =? lec q) (g1 q)).
-    unfold lec_load in Hload. unfold gA in HA. cbv beta. lia. }
+    unfold lec_load, gA in Hload. cbv beta. exact Hload. }
   assert (Hfull : (lec_load M m (lec q) <? nth1 (l_uq M) (lec q) 0) = false).
   { apply Z.ltb_ge. unfold lec_load.
     pose proof (countb_and_le pair (fun a => lec a =? lec q) (g1 q) (matched M m)) as Hle.
@@ -478,7 +478,7 @@ Proof.
 Qed.
 
 Lemma no_block_beta : forall M m q, wf M = true -> two_sided M = true -> In q (all_pairs M) ->
-  proj_load M m (pr q) <= nth1 (p_uq M) (pr q) 0 ->
+  proj_load M m (pr q) <= countb (gB q) (matched M m) ->
   nth1 (p_uq M) (pr q) 0 <= countb (gB q) (matched M m) ->
   blocking_b M m q = false.
 Proof.
@@ -800,24 +800,246 @@ Proof.
     { apply no_block_beta; try assumption; [|lia].
       specialize (Hproj _ (proj_in_ids M q Hwf Hq)). unfold proj_ok in Hproj.
       apply orb_true_iff in Hproj. destruct Hproj as [Hp|Hp].
-      - apply andb_true_iff in Hp. destruct Hp as [_ Hp]. apply Z.leb_le in Hp. exact Hp.
+      - apply andb_true_iff in Hp. destruct Hp as [_ Hp]. apply Z.leb_le in Hp. lia.
       - apply andb_true_iff in Hp. destruct Hp as [_ Hp]. apply Z.eqb_eq in Hp.
-        pose proof (countb_gB_le q (matched M m)) as Hgb. unfold proj_load in *. lia. }
+        pose proof (countb_nonneg _ (gB q) (matched M m)). lia. }
     rewrite Hblk in Hblk'. discriminate.
   - (* alpha = 1 *)
     unfold c_alpha in Sa. apply sat_GE in Sa. rewrite eval_cons, Ea, (eval_lk M v q Hb), Hmat in Sa.
     assert (Hblk' : blocking_b M m q = false).
     { apply no_block_alpha; try assumption; [|lia].
       specialize (Hlec _ (lec_in_ids M q Hwf Hq)). unfold lec_ok in Hlec.
-      apply andb_true_iff in Hlec. destruct Hlec as [_ Hl]. apply Z.leb_le in Hl. exact Hl. }
+      apply andb_true_iff in Hlec. destruct Hlec as [_ Hl]. apply Z.leb_le in Hl. lia. }
     rewrite Hblk in Hblk'. discriminate.
   - unfold c_alpha in Sa. apply sat_GE in Sa. rewrite eval_cons, Ea, (eval_lk M v q Hb), Hmat in Sa.
     assert (Hblk' : blocking_b M m q = false).
     { apply no_block_alpha; try assumption; [|lia].
       specialize (Hlec _ (lec_in_ids M q Hwf Hq)). unfold lec_ok in Hlec.
-      apply andb_true_iff in Hlec. destruct Hlec as [_ Hl]. apply Z.leb_le in Hl. exact Hl. }
+      apply andb_true_iff in Hlec. destruct Hlec as [_ Hl]. apply Z.leb_le in Hl. lia. }
     rewrite Hblk in Hblk'. discriminate.
+Qed.
+
+(* ---- the canonical assignment ------------------------------------------------------------- *)
+
+Lemma canon_row_nz : forall row p,
+  nodupZ (map pr row) = true -> (forall q, In q row -> 1 <= pr q) ->
+  filter (fun q => negb (pr q =? 0) && (p =? pr q)) row =
+  match (if p =? 0 then None else find_pair row p) with Some c => [c] | None => [] end.
+Proof.
+  intros row p Hnd Hpr. destruct (p =? 0) eqn:Ep0.
+  - apply Z.eqb_eq in Ep0. apply filter_nil. intros x Hx. specialize (Hpr x Hx).
+    apply andb_false_iff. right. apply Z.eqb_neq. lia.
+  - apply Z.eqb_neq in Ep0. unfold find_pair.
+    induction row as [|a t IH].
+    + reflexivity.
+    + cbn [map nodupZ] in Hnd. apply andb_true_iff in Hnd. destruct Hnd as [Hmem Hnd].
+      apply negb_true_iff in Hmem.
+      assert (Ha : 1 <= pr a) by (apply Hpr; left; reflexivity).
+      cbn [filter find]. rewrite (Z.eqb_sym (pr a) p).
+      destruct (pr a =? 0) eqn:Ea0; [apply Z.eqb_eq in Ea0; lia|]. cbn [negb andb].
+      destruct (p =? pr a) eqn:Epa.
+      * apply Z.eqb_eq in Epa. f_equal. apply filter_nil. intros x Hx.
+        apply andb_false_iff. right. apply Z.eqb_neq. intros Hc.
+        assert (Hm : memZ (pr a) (map pr t) = true).
+        { unfold memZ. apply existsb_exists. exists (pr x). split.
+          - apply in_map. exact Hx.
+          - apply Z.eqb_eq. lia. }
+        rewrite Hm in Hmem. discriminate.
+      * apply IH; [exact Hnd|]. intros x Hx. apply Hpr. right. exact Hx.
+Qed.
+
+Lemma acceptable_len : forall rows m, acceptable_rows rows m = true -> length rows = length m.
+Proof.
+  induction rows as [|r rows IH]; intros m H.
+  - destruct m; [reflexivity|discriminate].
+  - destruct m as [|p m]; [discriminate|]. cbn [acceptable_rows] in H.
+    apply andb_true_iff in H. destruct H as [_ H]. cbn [length]. f_equal. apply IH. exact H.
+Qed.
+
+Lemma matched_rows_canon : forall M rows m i (ch : Z -> Z),
+  rows_ok M i rows = true -> length rows = length m ->
+  (forall j, (j < length m)%nat -> ch (i + Z.of_nat j) = nth j m 0) ->
+  matched_rows rows m = filter (fun q => negb (pr q =? 0) && (ch (st q) =? pr q)) (concat rows).
+Proof.
+  intros M. induction rows as [|row rows IH]; intros m i ch Hok Hlen Hch.
+  - reflexivity.
+  - destruct m as [|p m]; [discriminate|].
+    cbn [rows_ok] in Hok. apply andb_true_iff in Hok. destruct Hok as [Hr Ht].
+    destruct (row_ok_facts M i row Hr) as [Hf [Hnd _]].
+    cbn [matched_rows concat]. rewrite filter_app.
+    assert (Hp : ch i = p).
+    { specialize (Hch O). cbn [length nth] in Hch. replace (i + Z.of_nat 0) with i in Hch by lia.
+      apply Hch. lia. }
+    rewrite (filter_ext_in (fun q => negb (pr q =? 0) && (ch (st q) =? pr q))
+                           (fun q => negb (pr q =? 0) && (p =? pr q)) row).
+    2:{ intros a Ha. destruct (Hf a Ha) as [Hst _]. rewrite Hst, Hp. reflexivity. }
+    rewrite (canon_row_nz row p Hnd).
+    2:{ intros a Ha. destruct (Hf a Ha) as [_ [Hpa _]]. lia. }
+    assert (Hrest : matched_rows rows m =
+                    filter (fun q => negb (pr q =? 0) && (ch (st q) =? pr q)) (concat rows)).
+    { apply (IH m (i + 1) ch Ht).
+      - cbn [length] in Hlen. lia.
+      - intros j Hj. specialize (Hch (S j)). cbn [length nth] in Hch.
+        replace (i + 1 + Z.of_nat j) with (i + Z.of_nat (S j)) by lia. apply Hch. lia. }
+    destruct (if p =? 0 then None else find_pair row p); rewrite Hrest; reflexivity.
+Qed.
+
+Lemma nz_canon : forall M prims m q,
+  negb (canon M prims m (X (st q) (pr q)) =? 0) = negb (pr q =? 0) && (nth1 m (st q) 0 =? pr q).
+Proof.
+  intros M prims m q. cbn [canon]. unfold x_val.
+  destruct (negb (pr q =? 0) && (nth1 m (st q) 0 =? pr q)); reflexivity.
+Qed.
+
+Lemma canon_matched : forall M prims m, wf M = true -> acceptable_rows (pairs M) m = true ->
+  filter (nz (canon M prims m)) (all_pairs M) = matched M m.
+Proof.
+  intros M prims m Hwf Hacc. destruct (wf_facts M Hwf) as [_ [_ [Hrows _]]].
+  unfold matched.
+  rewrite (matched_rows_canon M (pairs M) m 1 (fun s => nth1 m s 0) Hrows (acceptable_len _ _ Hacc)).
+  - unfold all_pairs. apply filter_ext. intros q. apply nz_canon.
+  - intros j Hj. unfold nth1. destruct (1 + Z.of_nat j <=? 0) eqn:E; [apply Z.leb_le in E; lia|].
+    replace (Z.to_nat (1 + Z.of_nat j - 1)) with j by lia. reflexivity.
+Qed.
+
+Lemma canon_binary : forall M prims m, binary (canon M prims m).
+Proof.
+  intros M prims m. split.
+  - intros s p. cbn [canon]. unfold x_val.
+    destruct (negb (p =? 0) && (nth1 m s 0 =? p)); [right|left]; reflexivity.
+  - intros j. cbn [canon]. destruct (proj_load M m j =? 0); [right|left]; reflexivity.
+Qed.
+
+Lemma canon_binary_ab : forall M prims m, binary_ab (canon M prims m).
+Proof.
+  intros M prims m s p. cbn [canon]. unfold alpha_val, beta_val. split.
+  - destruct (lec_of_pair M s p) as [q|]; [|left; reflexivity].
+    cbv zeta. destruct (_ <=? _); [right|left]; reflexivity.
+  - destruct (lec_of_pair M s p) as [q|]; [|left; reflexivity].
+    cbv zeta. destruct (_ <=? _); [right|left]; reflexivity.
+Qed.
+
+Lemma lec_of_pair_self : forall M q, wf M = true -> In q (all_pairs M) ->
+  lec_of_pair M (st q) (pr q) = Some q.
+Proof.
+  intros M q Hwf Hq. destruct (pair_ctx M q Hwf Hq) as [n [row [Hn [Hin [Hst Hok]]]]].
+  destruct (row_ok_facts M _ row Hok) as [_ [Hnd _]].
+  unfold lec_of_pair. replace (Z.to_nat (st q - 1)) with n by lia. rewrite Hn.
+  unfold find_pair. apply find_nodup; assumption.
+Qed.
+
+Lemma alpha_val_eq : forall M m q, wf M = true -> In q (all_pairs M) ->
+  alpha_val M m (st q) (pr q) =
+  if nth1 (l_uq M) (lec q) 0 <=? countb (gA q) (matched M m) then 1 else 0.
+Proof.
+  intros M m q Hwf Hq. unfold alpha_val. rewrite (lec_of_pair_self M q Hwf Hq). cbv zeta.
+  unfold M_of_lec. rewrite filter_filter.
+  replace (zlen (filter (fun x => (lec x =? lec q) && (negb (st x =? st q) && (rl0 x <=? rl0 q)))
+                        (matched M m)))
+    with (countb (gA q) (matched M m)); [reflexivity|].
+  unfold countb. f_equal. apply filter_ext. intros a. unfold gA, g1.
+  rewrite (andb_comm (rl0 a <=? rl0 q)). reflexivity.
+Qed.
+
+Lemma beta_val_eq : forall M m q, wf M = true -> In q (all_pairs M) ->
+  beta_val M m (st q) (pr q) =
+  if nth1 (p_uq M) (pr q) 0 <=? countb (gB q) (matched M m) then 1 else 0.
+Proof.
+  intros M m q Hwf Hq. unfold beta_val. rewrite (lec_of_pair_self M q Hwf Hq). cbv zeta.
+  unfold M_of_proj. rewrite filter_filter.
+  replace (zlen (filter (fun x => (pr x =? pr q) && (negb (st x =? st q) && (rl0 x <=? rl0 q)))
+                        (matched M m)))
+    with (countb (gB q) (matched M m)); [reflexivity|].
+  unfold countb. f_equal. apply filter_ext_in. intros a Ha. unfold gB, gA, g1.
+  rewrite (andb_comm (rl0 a <=? rl0 q)).
+  destruct (pr a =? pr q) eqn:Ep; [|apply andb_false_r].
+  rewrite andb_true_r. cbn [andb].
+  destruct (matched_assigned M m a Hwf Ha) as [_ Haa]. apply Z.eqb_eq in Ep.
+  rewrite (same_proj_same_lec M a q Hwf Haa Hq Ep), Z.eqb_refl. reflexivity.
+Qed.
+
+(* ---- completeness ---------------------------------------------------------------------------- *)
+
+Theorem stab_complete : forall (M : instance) (pc : bool) (m : matching) (cs : list constr) (prims : list prim),
+  wf M = true -> two_sided M = true -> valid_b pc M m = true -> stable_b M m = true ->
+  stability_constrs M = Ok cs ->
+  all_sat (canon M prims m) cs /\ binary_ab (canon M prims m).
+Proof.
+  intros M pc m cs prims Hwf H2s Hval Hstab Hcs.
+  split; [|apply canon_binary_ab].
+  set (v := canon M prims m).
+  assert (Hb : binary v) by apply canon_binary.
+  assert (Hacc : acceptable_rows (pairs M) m = true).
+  { unfold valid_b in Hval. apply andb_true_iff in Hval. destruct Hval as [Hval _].
+    apply andb_true_iff in Hval. tauto. }
+  pose proof (canon_matched M prims m Hwf Hacc) as Hmat. fold v in Hmat.
+  unfold all_sat. apply forallb_forall. intros c Hc.
+  destruct (stab_in_inv M cs c Hcs Hc) as [row [q [Hrow [Hin Hcase]]]].
+  assert (Hq : In q (all_pairs M)).
+  { unfold all_pairs. apply in_concat. exists row. split; assumption. }
+  pose proof (countb_nonneg _ (gA q) (matched M m)) as HA0.
+  pose proof (countb_nonneg _ (gB q) (matched M m)) as HB0.
+  assert (Eal : v (Alpha (st q) (pr q)) =
+                if nth1 (l_uq M) (lec q) 0 <=? countb (gA q) (matched M m) then 1 else 0).
+  { unfold v. cbn [canon]. apply alpha_val_eq; assumption. }
+  assert (Ebe : v (Beta (st q) (pr q)) =
+                if nth1 (p_uq M) (pr q) 0 <=? countb (gB q) (matched M m) then 1 else 0).
+  { unfold v. cbn [canon]. apply beta_val_eq; assumption. }
+  destruct Hcase as [Hc1|[Hc1|Hc1]]; subst c.
+  - (* alpha *)
+    unfold c_alpha, sat. cbn [c_rel c_lhs c_rhs]. apply Z.leb_le.
+    rewrite eval_cons, (eval_lk M v q Hb), Hmat, Eal.
+    destruct (nth1 (l_uq M) (lec q) 0 <=? countb (gA q) (matched M m)) eqn:E.
+    + apply Z.leb_le in E. lia.
+    + lia.
+  - (* beta *)
+    unfold c_beta, sat. cbn [c_rel c_lhs c_rhs]. apply Z.leb_le.
+    rewrite eval_cons, (eval_pj M v q Hb), Hmat, Ebe.
+    destruct (nth1 (p_uq M) (pr q) 0 <=? countb (gB q) (matched M m)) eqn:E.
+    + apply Z.leb_le in E. lia.
+    + lia.
+  - (* gamma *)
+    unfold sat. change (c_rel (c_gamma row q)) with LE. change (c_rhs (c_gamma row q)) with (-1).
+    apply Z.leb_le. rewrite eval_gamma.
+    rewrite (filter_nz_len v _ Hb).
+    pose proof (zlen_nonneg _ (filter (nz v) (wants_prefix (rs q) row))) as Hpre0.
+    assert (Ha01 : 0 <= v (Alpha (st q) (pr q))).
+    { rewrite Eal. destruct (nth1 (l_uq M) (lec q) 0 <=? countb (gA q) (matched M m)); lia. }
+    assert (Hb01 : 0 <= v (Beta (st q) (pr q))).
+    { rewrite Ebe. destruct (nth1 (p_uq M) (pr q) 0 <=? countb (gB q) (matched M m)); lia. }
+    destruct (c2_of M m q) eqn:Ec2.
+    + (* the student wants to move: q does not block, so alpha or beta is 1 *)
+      assert (Hnb : blocking_b M m q = false).
+      { unfold stable_b, exists_blocking_b in Hstab. apply negb_true_iff in Hstab.
+        destruct (blocking_b M m q) eqn:Eb; [|reflexivity].
+        assert (Hex : existsb (blocking_b M m) (all_pairs M) = true).
+        { apply existsb_exists. exists q. split; assumption. }
+        rewrite Hex in Hstab. discriminate. }
+      destruct (not_blocking_counts M m q Hwf H2s Hq Hnb Ec2) as [HA|HB].
+      * apply Z.leb_le in HA. rewrite HA in Eal. lia.
+      * apply Z.leb_le in HB. rewrite HB in Ebe. lia.
+    + (* the student holds a pair at least as good: the prefix sum is at least 1 *)
+      unfold c2_of in Ec2.
+      destruct (assigned_pair M m (st q)) as [c|] eqn:Eas; [|discriminate].
+      apply Z.ltb_ge in Ec2.
+      destruct (assigned_matched M m q c Hwf Hq Eas) as [Hcm [Hstc [Hca [_ Hcrow]]]].
+      destruct (pair_ctx M q Hwf Hq) as [n [row' [Hn [Hin' [Hst Hok]]]]].
+      assert (Hrr : In q row /\ In c row /\ dense_ranks (map rs row) = true).
+      { apply In_nth_error in Hrow. destruct Hrow as [n2 Hn2].
+        destruct (wf_facts M Hwf) as [_ [_ [Hrows _]]].
+        pose proof (rows_ok_nth M (pairs M) 1 n2 row Hrows Hn2) as Hok2.
+        destruct (row_ok_facts M _ row Hok2) as [Hf2 [_ Hd2]].
+        destruct (Hf2 q Hin) as [Hst2 _].
+        split; [exact Hin|]. split; [|exact Hd2].
+        apply (Hcrow n2 row Hn2). lia. }
+      destruct Hrr as [_ [Hcr Hdense]].
+      assert (Hcp : In c (wants_prefix (rs q) row)).
+      { apply wants_prefix_in; assumption. }
+      assert (Hnzc : negb (v (X (st c) (pr c)) =? 0) = true).
+      { rewrite <- Hmat in Hcm. apply filter_In in Hcm. tauto. }
+      pose proof (zlen_filter_ge1 pair (nz v) _ c Hcp Hnzc). lia.
 Qed.
 
 Print Assumptions stab_sound.
 Print Assumptions stability_constrs_total.
+Print Assumptions stab_complete.
